@@ -24,6 +24,7 @@ class Registry:
         self.defs = {}         # name of a defined (max) variable -> list of z3 constraints
         self.variables = {}    # name -> (z3 const, known_positive)
         self.max_args = {}     # name of a max variable -> the V's it is the maximum of
+        self.max_memo = {}     # sorted argument keys -> max variable
         self.path_pos = set()  # atoms proved positive under the current path condition only (cleared per path)
         self.counter = 0
         self.generation = getattr(self, "generation", 0) + 1
@@ -352,9 +353,14 @@ def vmax(vals):
         vals = [v for v in vals if not v.is_const()] + [best]
         if len(vals) == 1:
             return vals[0]
+    mkey = tuple(sorted(v.key() for v in vals))
+    hit = REG.max_memo.get(mkey)
+    if hit is not None:
+        return hit                      # the same maximum (re-executed path, repeated call): one variable, one definition
     REG.counter += 1
     name = f"__max{REG.counter}"
-    pos = any(v.known_pos() for v in vals)
+    # only path-independent sign knowledge may flow into the (memoised, session-wide) variable's flag
+    pos = any(v.c > 0 and all(REG.atoms[i][1] for i in v.at) for v in vals)
     m = V.var(name, pos=pos)
     cs = []
     for v in vals:
@@ -368,6 +374,7 @@ def vmax(vals):
     cs.append(z3.Or(eqs))
     REG.defs[name] = cs
     REG.max_args[name] = vals
+    REG.max_memo[mkey] = m
     return m
 
 
